@@ -127,7 +127,7 @@ impl SynCheck {
     fn run_syntax(&mut self, case: &Case, env: &mut Env) -> CaseOut {
         util::fresh_cwd(&env.dir.join("m"));
         let mut mt = Tape::new(&case.main);
-        let mut g = Gen { t: &mut mt, o: self.opts.clone(), counter: 0, rules: vec![], features: vec![] };
+        let mut g = Gen { t: &mut mt, o: self.opts.clone(), counter: 0, rules: vec![], rule_refs: vec![], features: vec![] };
         let m = g.manifest();
         let mut features: Vec<&'static str> = std::mem::take(&mut g.features);
         let mut out = CaseOut { evals: 0, ..Default::default() };
@@ -209,7 +209,7 @@ impl SynCheck {
     fn run_dups(&mut self, case: &Case, env: &mut Env) -> CaseOut {
         util::fresh_cwd(&env.dir.join("m"));
         let mut mt = Tape::new(&case.main);
-        let mut g = Gen { t: &mut mt, o: self.opts.clone(), counter: 0, rules: vec![], features: vec![] };
+        let mut g = Gen { t: &mut mt, o: self.opts.clone(), counter: 0, rules: vec![], rule_refs: vec![], features: vec![] };
         let mut m = g.manifest();
         let mut out = CaseOut { evals: 1, ..Default::default() };
         // strip pool bindings (an undeclared pool would fail the run part for an unrelated reason)
